@@ -132,6 +132,7 @@ LOSS_FNS = {
     "dist": lambda th: float(np.sum((th - 0.3) ** 2)),
     "extreme": lambda th: (1e40 if th[0] > np.mean(th) + 0.2 else -1e40 if th[0] < np.mean(th) - 0.4 else float(np.sum(th))),
     "ties": lambda th: float(round(float(np.sum(th)), 0)),
+    "offset": lambda th: 1e6 + 1e-4 * float(np.sum(th)),       # distinct finite losses sharing a large offset (relative spread ~1e-10)
     "infmix": lambda th: (float("inf") if th[0] > 0.7 else -float("inf") if th[0] < 0.08 else float(np.sum(th))),
 }
 
@@ -244,6 +245,7 @@ class Scn:
     dedup_passes: int = 0                           # max_deduplication_passes of the stub samplers (0: sample() returns what sample_batch proposed)
     model_mutates: bool = False                     # the stub model overwrites its parameter argument in place after using it
     alias_slots: tuple = ()                         # (i, j): slot i of the line-up holds the very same sampler object as slot j
+    slow_env_reset: float = 0.0                     # seconds the RL environment's reset_state() takes (0 = the stock environment)
     slow_policy_calls: tuple = ()                   # indices of the scripted agent's policy() calls that take 1.4 s
     fault_class: str | None = None                  # which exception class the injected failures have (see FAULT_CLASSES); None: fault_base decides
     keep_buffers: bool = False                      # stub samplers return one array of their own and rewrite it in place at every call
@@ -439,7 +441,16 @@ def run_real(scn: Scn, model=None):
                 else:
                     agent = ScriptedAgent(scn.actions)
                     agent.slow_calls, agent.slow_for = tuple(getattr(scn, "slow_policy_calls", ())), 1.4
-                env = MABCalibrationEnv(len(samplers))
+                if getattr(scn, "slow_env_reset", 0):
+                    class SlowResetEnv(MABCalibrationEnv):
+                        """an admissible user environment whose initial state takes a while to build"""
+                        def reset_state(self, _d=float(scn.slow_env_reset)):
+                            import time
+                            time.sleep(_d)
+                            return super().reset_state()
+                    env = SlowResetEnv(len(samplers))
+                else:
+                    env = MABCalibrationEnv(len(samplers))
                 kw["scheduler"] = RLScheduler(samplers, agent, env)
                 for s in kw["scheduler"].samplers:
                     if not hasattr(s, "_vp_obj"):
@@ -457,7 +468,13 @@ def run_real(scn: Scn, model=None):
                 if op[0] == "C":
                     try:
                         fired0 = STATE["fired"]
-                        p, l = _with_watchdog(lambda: cal.calibrate(op[1]))
+                        if getattr(scn, "slow_policy_calls", ()) or getattr(scn, "slow_env_reset", 0):
+                            with short_timeouts() as cut_waits:
+                                p, l = _with_watchdog(lambda: cal.calibrate(op[1]))
+                            if cut_waits:
+                                info.setdefault("finite_waits", []).extend(cut_waits)
+                        else:
+                            p, l = _with_watchdog(lambda: cal.calibrate(op[1]))
                         if STATE["fired"] > fired0:
                             info.setdefault("swallowed", []).append(len(lines))     # an injected exception was raised inside this call, which returned normally
                         lines.append("ok " + dump(cal, scn) + f" result=[{canon_result(p, l)}]")
@@ -521,6 +538,46 @@ def run_real(scn: Scn, model=None):
 
 class Hang(Exception):
     pass
+
+
+@contextlib.contextmanager
+def short_timeouts(limit=0.05):
+    """Scenarios with a slow agent stand for "an agent that is slower than any fixed bound".  A real sleep can only exceed bounds shorter than
+    itself, so during such a scenario every FINITE timeout that the code under test (frames inside the black_it package) passes to
+    Thread.join, Queue.get/put, Event.wait or Condition.wait is cut down to `limit` seconds — far below the scripted delay.  Waits
+    without a timeout (all there is in the unchanged code) are untouched, so this is inert where the code waits properly."""
+    import queue as _q, sys as _sys, threading as _th
+    import black_it as _b
+    pkg = os.path.dirname(os.path.abspath(_b.__file__))
+
+
+    o_join, o_get, o_put, o_ewait, o_cwait = _th.Thread.join, _q.Queue.get, _q.Queue.put, _th.Event.wait, _th.Condition.wait
+    hits = []
+
+    def cut(t):
+        # frame 0 = cut, 1 = the wrapper below, 2 = whoever called join/get/put/wait
+        if t is not None and t > limit and os.path.abspath(_sys._getframe(2).f_code.co_filename).startswith(pkg):
+            hits.append(t)
+            return limit
+        return t
+
+    def join(self, timeout=None):
+        return o_join(self, cut(timeout))
+
+    def get(self, block=True, timeout=None):
+        return o_get(self, block, cut(timeout))
+
+    def put(self, item, block=True, timeout=None):
+        return o_put(self, item, block, cut(timeout))
+
+    def ewait(self, timeout=None):
+        return o_ewait(self, cut(timeout))
+
+    _th.Thread.join, _q.Queue.get, _q.Queue.put, _th.Event.wait = join, get, put, ewait
+    try:
+        yield hits
+    finally:
+        _th.Thread.join, _q.Queue.get, _q.Queue.put, _th.Event.wait = o_join, o_get, o_put, o_ewait
 
 
 def _with_watchdog(fn, timeout=20.0):
